@@ -1,6 +1,7 @@
 import Utcp.Lemmas.Log
 import Utcp.Props.C13
 import Utcp.Props.C11
+import Utcp.Lemmas.RecvOrder
 /-!
 # C01 — reliable bunches: exactly once, in order, intact, per channel
 
@@ -11,9 +12,17 @@ Local building blocks, each for arbitrary states and inputs:
 * sender: a reliable send consumes exactly the next sequence of its channel and retains the exact bits it put on
   the wire; a retransmission re-sends those very bits, so every copy of (channel, sequence) on the network encodes
   the same bunch, which the receiver decodes to the bunch that was sent (C11).
-The end-to-end statement (exactly-once / in-order delivery under every fault pattern, and eventual delivery) is
-*not* proved in Lean: it is checked on the real code by the C01 monitor over the fault-injecting sessions, and the
-two-endpoint invariant it rests on is written out in DESIGN.md, Appendix A.
+Over **every history** (second half of the file, `Lemmas/RecvOrder.lean`): whatever bit strings `ReceivedPacket` is fed —
+genuine, duplicated, reordered, corrupted, forged — interleaved with any sends and flushes of the endpoint itself, the
+channel sequence numbers of the reliable bunches handed to the application on a channel are **strictly increasing**
+(`delivered_in_order`): no reliable bunch is delivered twice, none out of order (`delivered_once`).  The invariant behind it
+(`RecvInv`) also covers the fragments of a reliable group still being assembled.  Scope: one incarnation of a channel — the
+history contains no `utcp_update` that tears a channel down (after a teardown the numbering of a re-opened channel
+legitimately starts again).
+The remaining end-to-end statements — that the bunch delivered under sequence `s` *is* the bunch the peer sent under `s`
+(needs: the network forges nothing, and the window invariant that keeps the 10-bit wire residue unambiguous), and eventual
+delivery — are *not* proved in Lean: they are checked on the real code by the C01 monitor over the fault-injecting
+sessions, and the two-endpoint invariant they rest on is written out in DESIGN.md, Appendix A.
 -/
 namespace Utcp.Props.C01
 open Utcp Utcp.Gen
@@ -158,5 +167,61 @@ theorem retained_bits_decode (b : Bunch) (hwf : WFBunch b) (rest : Bits) :
 /-! non-vacuity -/
 example : Sorted [{ chSeq := 5 }, { chSeq := 7 }] := by simp [Sorted]
 example : enqueueIncoming { chSeq := 6 } [{ chSeq := 5 }, { chSeq := 7 }] = some [{ chSeq := 5 }, { chSeq := 6 }, { chSeq := 7 }] := by decide
+
+/-! ## every history: at most once, in order -/
+
+/-- what the application and the network can do to an endpoint (no channel teardown: one incarnation of each channel) -/
+inductive Op where
+  | send (b : Bunch)
+  | flush
+  /-- the body of any datagram handed to `ReceivedPacket` -/
+  | recv (bits : Bits)
+
+def apply (e : Env) (c : Conn) : Op → Conn
+  | .send b => (c.sendBunch e b).1
+  | .flush => c.flush e
+  | .recv bits => (c.receivedPacket e bits).1
+
+def run (c : Conn) : List (Env × Op) → Conn
+  | [] => c
+  | (e, op) :: rest => run (apply e c op) rest
+
+theorem step_order (e : Env) (c : Conn) (op : Op) (h : RecvInv c) : RecvInv (apply e c op) := by
+  cases op with
+  | send b => exact sendBunch_inv e c b h
+  | flush => exact h.of_rsame (flush_rsame e c)
+  | recv bits => exact receivedPacket_inv e c bits h
+
+theorem run_order (ops : List (Env × Op)) : ∀ c : Conn, RecvInv c → RecvInv (run c ops) := by
+  induction ops with
+  | nil => intro c h; exact h
+  | cons p rest ih =>
+    intro c h
+    obtain ⟨e, op⟩ := p
+    exact ih _ (step_order e c op h)
+
+/-- the invariant holds on a freshly initialised connection: no channel, nothing delivered -/
+theorem fresh_order (i o : Int) : RecvInv (({} : Conn).seqInit i o) :=
+  empty_recvinv _ rfl (fun _ => rfl)
+
+/-- **in order**: after any history, the reliable bunches delivered on channel `ch` (oldest first) carry strictly increasing
+channel sequence numbers -/
+theorem delivered_in_order (ops : List (Env × Op)) (c : Conn) (h : RecvInv c) (ch : Nat) :
+    (relLog ch (run c ops).log).Pairwise (· < ·) :=
+  (run_order ops c h).increasing ch
+
+/-- **at most once**: no channel sequence number is delivered twice -/
+theorem delivered_once (ops : List (Env × Op)) (c : Conn) (h : RecvInv c) (ch : Nat) : (relLog ch (run c ops).log).Nodup := by
+  have := delivered_in_order ops c h ch
+  exact this.imp (fun hlt => by omega)
+
+/-- and never beyond what the channel has counted: every delivered number is at most the channel's `InReliable` -/
+theorem delivered_bounded (ops : List (Env × Op)) (c : Conn) (h : RecvInv c) (ch : Nat) (x : Channel) (hx : (run c ops).getChan ch = some x) :
+    ∀ s ∈ relLog ch (run c ops).log, s ≤ x.inReliable :=
+  ((run_order ops c h).chans ch _ (chanRecv_of_getChan hx)).dl.2
+
+/-! non-vacuity: a fresh connection satisfies the invariant; a concrete history keeps it -/
+example : RecvInv (run (({} : Conn).seqInit 3 7) [({}, .send { chIndex := 1, bOpen := true, bReliable := true }), ({}, .flush), ({}, .recv [true, false, true])]) :=
+  run_order _ _ (fresh_order 3 7)
 
 end Utcp.Props.C01
